@@ -40,7 +40,7 @@ structure Atom (K : Type) where
   an : Nat           -- atomic number
   isH : Bool
   symmgen : Bool
-deriving Repr
+deriving Repr, DecidableEq
 
 /-- the numeric kernel: `SDM.vector_length`, `floor`, int -> number, and the literals of the code -/
 structure Kernel (K : Type) where
@@ -62,13 +62,14 @@ structure Need where
   k : Int
   l : Int
   group : Int
-deriving Repr, BEq, DecidableEq
+deriving Repr, DecidableEq
 
 structure SdmItem (K : Type) where
   atom1 : Atom K
   atom2 : Atom K
   dist : K
   covalent : Bool
+deriving DecidableEq
 
 section
 variable {K : Type} [Add K] [Sub K] [Mul K] [LT K] [LE K] [DecidableLT K] [DecidableLE K]
@@ -163,7 +164,7 @@ def candidate (ker : Kernel K) (it : SdmItem K) (n : Nat) (op : Op K) : Option N
 def addNeed (need : List Need) (c : Option Need) : List Need :=
   match c with
   | none => need
-  | some bs => if need.contains bs then need else need ++ [bs]
+  | some bs => if bs ∈ need then need else need ++ [bs]
 
 def collectOps (ker : Kernel K) (it : SdmItem K) : List (Op K) → Nat → List Need → List Need
   | [], _, need => need
@@ -192,6 +193,9 @@ def IsImageOf (ker : Kernel K) (op : Op K) (h k l : Int) (o a : Atom K) : Prop :
 /-- two atoms of the same PART coincide (closer than the duplicate distance), `b` measured from `a` -/
 def Coincide (ker : Kernel K) (a b : Atom K) : Prop :=
   a.part = b.part ∧ ker.vlen (b.pos.x - a.pos.x) (b.pos.y - a.pos.y) (b.pos.z - a.pos.z) < ker.dupLim
+
+instance (ker : Kernel K) (a b : Atom K) : Decidable (Coincide ker a b) := by
+  unfold Coincide; infer_instance
 
 /-- the image of `o` is in the result, or (PART >= 0) an atom of its PART already sits within the duplicate distance -/
 def imagePresent (ker : Kernel K) (res : List (Atom K)) (na : Atom K) : Prop :=
